@@ -28,11 +28,13 @@ def main(argv):
         mod.run(ck)
         if tier == 'thorough' and replay is None and not os.environ.get('PXV_NO_EVIDENCE'):
             from . import selftest
-            res = selftest.run(pid)
+            res = selftest.run(pid, units=set(ck.units))
             det = [r for r in res if r[1] == 'detected']; sil = [r for r in res if r[1] == 'silent']
-            ck.note('self-test: %d mutants detected, %d benign edits silent, %d stale patches' % (len(det), len(sil), len([r for r in res if r[1] == 'stale'])))
+            ck.note('self-test: %d mutants detected, %d benign edits silent (%d more touch no unit this check analyses), %d stale patches' % (len(det), len(sil), len([r for r in res if r[1] == 'not-relevant']), len([r for r in res if r[1] == 'stale'])))
             ck.selftest = [dict(patch=os.path.relpath(r[0], os.path.dirname(os.path.dirname(os.path.abspath(__file__)))), verdict=r[1], report=r[2]) for r in res]
             for r in res:
+                if r[1] == 'not-relevant':
+                    continue
                 nm = os.path.basename(r[0]) if 'seeded' not in r[0] else os.path.basename(os.path.dirname(r[0])) + '/patch.diff'
                 print('  self-test %-11s %s %s' % (r[1], nm, r[2][:240]))
                 if r[1] in ('missed', 'false-alarm'):
